@@ -18,7 +18,8 @@ AppendDemands(e) ==
     <<"C16.untouched", e.preafter = e.prefix>>,
     <<"C16.chain",     e.chain = e.nilout \o e.nilout \o e.nilout>>,     \* each result used as the next call's buffer
     <<"C16.reuse",     e.reuseout = e.reusepre \o e.nilout>>,             \* the returned buffer truncated, refilled, used again
-    <<"C16.noerr",     e.ok>>
+    <<"C16.noerr",     e.ok>>,
+    <<"C16.nopanic",   ~e.panic>>
   >>
 
 \* C17: one Unmarshal* / Scan call on a receiver holding e.pre
